@@ -183,38 +183,58 @@ theorem trigger_continuity (p : Pkt) (pts : Int) (hp : p.ts < two32) :
 
 /-! ### (b1) the generic fragmenter -/
 
+theorem chunksAux_flatten (k : Nat) (hk : 0 < k) (fuel : Nat) (b : Bytes) (hf : b.length ≤ fuel) :
+    (chunksAux k fuel b).flatten = b := by
+  induction fuel generalizing b with
+  | zero =>
+    have : b = [] := List.length_eq_zero_iff.mp (by omega)
+    subst this; rfl
+  | succ f ih =>
+    unfold chunksAux
+    split
+    · split
+      · rename_i he; simp at he; simp [he]
+      · simp
+    · rename_i hgt
+      simp only [List.flatten_cons]
+      rw [ih (b.drop k) (by simp only [List.length_drop]; omega)]
+      exact List.take_append_drop k b
+
 theorem chunks_flatten (k : Nat) (hk : 0 < k) (b : Bytes) : (chunks k b).flatten = b := by
-  induction b using chunks.induct k with
-  | case1 b h => omega
-  | case2 b _ hb he =>
-    rw [chunks]; simp only [show ¬ k = 0 by omega, dite_false, hb, dite_true, he, if_true]
-    simpa using he
-  | case3 b _ hb he =>
-    rw [chunks]; simp only [show ¬ k = 0 by omega, dite_false, hb, dite_true, he]
-    simp
-  | case4 b _ hb ih =>
-    rw [chunks]; simp only [show ¬ k = 0 by omega, dite_false, hb]
-    simp [ih]
+  unfold chunks
+  rw [if_neg (by omega)]
+  exact chunksAux_flatten k hk _ b (Nat.le_refl _)
+
+theorem chunksAux_size (k : Nat) (hk : 0 < k) (fuel : Nat) (b : Bytes) :
+    ∀ c ∈ chunksAux k fuel b, 0 < c.length ∧ c.length ≤ k := by
+  induction fuel generalizing b with
+  | zero => intro c hc; simp [chunksAux] at hc
+  | succ f ih =>
+    unfold chunksAux
+    split
+    · rename_i hle
+      split
+      · intro c hc; cases hc
+      · rename_i hne
+        intro c hc
+        simp only [List.mem_singleton] at hc
+        subst hc
+        refine ⟨?_, hle⟩
+        cases c with
+        | nil => simp at hne
+        | cons _ _ => simp
+    · rename_i hgt
+      intro c hc
+      rcases List.mem_cons.mp hc with rfl | hc
+      · simp only [List.length_take]; omega
+      · exact ih _ c hc
 
 theorem chunks_size (k : Nat) (b : Bytes) : ∀ c ∈ chunks k b, 0 < c.length ∧ c.length ≤ k := by
-  induction b using chunks.induct k with
-  | case1 b h => rw [chunks]; simp [h]
-  | case2 b hk hb he => rw [chunks]; simp [hk, hb, he]
-  | case3 b hk hb he =>
-    rw [chunks]; simp only [hk, dite_false, hb, dite_true, he]
-    intro c hc
-    simp only [Bool.false_eq_true, if_false, List.mem_singleton] at hc
-    subst hc
-    refine ⟨?_, hb⟩
-    cases c with
-    | nil => simp at he
-    | cons x r => simp
-  | case4 b hk hb ih =>
-    rw [chunks]; simp only [hk, dite_false, hb]
-    intro c hc
-    rcases List.mem_cons.mp hc with rfl | hc
-    · simp only [List.length_take]; omega
-    · exact ih c hc
+  unfold chunks
+  split
+  · intro c hc; cases hc
+  · rename_i hk
+    exact chunksAux_size k (by omega) _ b
 
 theorem chunks_ne_nil (k : Nat) (hk : 0 < k) (b : Bytes) (hb : b ≠ []) : chunks k b ≠ [] := by
   intro h
@@ -294,16 +314,14 @@ theorem frag_decode_aux (ssrc : Nat) (cs : List Bytes) (hne : cs ≠ []) (hpos :
         List.append_nil]
       by_cases ha : acc = []
       · subst ha; simp [hd]
-      · have : d.frags.isEmpty = false := by rw [hd]; cases acc with | nil => exact absurd rfl ha | cons _ _ => rfl
-        simp [this, hn ha, hd, ha]
+      · simp [hn ha, hd, ha]
     | cons c2 rest' =>
       have hstep : fragDecode d ⟨ssrc, seq % two16, 0 % two32, false, c⟩ =
           ({ frags := acc ++ c, next := (seq % two16 + 1) % two16 }, .more) := by
         simp only [fragDecode, hce]
         by_cases ha : acc = []
         · subst ha; simp [hd]
-        · have : d.frags.isEmpty = false := by rw [hd]; cases acc with | nil => exact absurd rfl ha | cons _ _ => rfl
-          simp [this, hn ha, hd, ha]
+        · simp [hn ha, hd, ha]
       have hl : number ssrc (seq + 1) (markLast (c2 :: rest')) ≠ [] := by
         intro e
         have := congrArg List.length e
@@ -755,5 +773,300 @@ theorem fu_nalus (d : H264Dec) (p : Pkt) (hdr : UInt8) (s f : Bool) (c : Bytes)
   simp only [fuHdr, List.cons_append, List.nil_append, fuInd_typ, (fuB1_bits hdr s f).1,
     (fuB1_bits hdr s f).2, fu_restore hdr hF s f]
   rfl
+
+theorem clean_facts (n : NALU) (h : cleanNALU n = true) :
+    n ≠ [] ∧ (n.headD 0 &&& 0x80 = 0) ∧ containsSeq [0, 0, 1] n = false ∧ n.length < two16 := by
+  unfold cleanNALU at h
+  simp only [Bool.and_eq_true, Bool.not_eq_true', beq_iff_eq, decide_eq_true_eq] at h
+  obtain ⟨⟨⟨⟨h1, h2⟩, _⟩, h4⟩, h5⟩ := h
+  refine ⟨?_, h2, h4, h5⟩
+  intro e; rw [e] at h1; simp at h1
+
+theorem fuFrags_ne (hdr : UInt8) (s : Bool) (cs : List Bytes) (h : cs ≠ []) : fuFrags hdr s cs ≠ [] := by
+  cases cs with
+  | nil => exact absurd rfl h
+  | cons c r => cases r <;> simp [fuFrags]
+
+theorem batchDec_of_nalus (d d1 : H264Dec) (fb : List NALU) (p : Pkt) (ns : List NALU) (last : Bool)
+    (hu : d.unmodelled = false) (hm : p.marker = last) (h : h264Nalus d p = (d1, .out ns))
+    (h1 : d1.frag = none ∧ d1.unmodelled = false ∧ d1.frame = fb) :
+    BatchDec d fb ns [p] last := by
+  have hd := h264Decode_of_nalus d d1 p ns hu h
+  unfold BatchDec
+  simp only [h264DecodeAll, hd, hm]
+  cases last with
+  | true =>
+    refine ⟨{ d1 with frame := [] }, ?_, fun e => by cases e⟩
+    simp [h1.2.2]
+  | false =>
+    refine ⟨{ d1 with frame := d1.frame ++ ns }, ?_, fun _ => ⟨h1.1, h1.2.1, ?_⟩⟩
+    · simp
+    · simp [h1.2.2]
+
+theorem batch_single (ssrc sq : Nat) (last : Bool) (n : NALU) (hc : cleanNALU n = true)
+    (d : H264Dec) (fb : List NALU) (hr : Ready d fb) :
+    BatchDec d fb [n] (numberM ssrc sq last [n]) last := by
+  simp only [numberM]
+  exact batchDec_of_nalus d _ fb _ [n] last hr.unm (by simp) (single_nalus d _ hc)
+    ⟨rfl, hr.unm, hr.frame⟩
+
+theorem batch_stap (ssrc sq : Nat) (last : Bool) (b : List NALU) (hb : b ≠ [])
+    (hc : ∀ n ∈ b, cleanNALU n = true) (d : H264Dec) (fb : List NALU) (hr : Ready d fb) :
+    BatchDec d fb b (numberM ssrc sq last [stapA b]) last := by
+  simp only [numberM]
+  exact batchDec_of_nalus d _ fb _ b last hr.unm (by simp)
+    (stap_nalus d _ b rfl hb (fun n hn => ⟨(clean_facts n (hc n hn)).1, (clean_facts n (hc n hn)).2.2.2⟩))
+    ⟨rfl, hr.unm, hr.frame⟩
+
+/-- FU-A: the fragments after the first one -/
+theorem fu_cont (ssrc : Nat) (hdr : UInt8) (hF : hdr &&& 0x80 = 0) (last : Bool) (cs : List Bytes)
+    (hne : cs ≠ []) (sq : Nat) (acc : Bytes) (d : H264Dec) (fb : List NALU)
+    (hfrag : d.frag = some acc) (hnext : d.next = sq % two16) (hu : d.unmodelled = false)
+    (hframe : d.frame = fb) (hclean : containsSeq [0, 0, 1] (acc ++ cs.flatten) = false) :
+    BatchDec d fb [acc ++ cs.flatten] (numberM ssrc sq last (fuFrags hdr false cs)) last := by
+  induction cs generalizing sq acc d with
+  | nil => exact absurd rfl hne
+  | cons c rest ih =>
+    cases rest with
+    | nil =>
+      simp only [fuFrags, numberM, List.flatten_cons, List.flatten_nil, List.append_nil] at hclean ⊢
+      have hn := fu_nalus d ⟨ssrc, sq % two16, 0, last && ([] : List Bytes).isEmpty, fuHdr hdr false true ++ c⟩
+        hdr false true c rfl hF
+      simp only [hfrag, hnext, bne_self_eq_false, Bool.false_eq_true, if_false, if_true,
+        afterFU_clean d _ hclean] at hn
+      exact batchDec_of_nalus d _ fb _ _ last hu (by simp) hn ⟨rfl, hu, hframe⟩
+    | cons c2 rest' =>
+      have hf : fuFrags hdr false (c :: c2 :: rest') =
+          (fuHdr hdr false false ++ c) :: fuFrags hdr false (c2 :: rest') := rfl
+      rw [hf]
+      simp only [numberM]
+      have hl := numberM_ne ssrc (sq + 1) last _ (fuFrags_ne hdr false (c2 :: rest') (by simp))
+      have hn := fu_nalus d ⟨ssrc, sq % two16, 0,
+        last && (fuFrags hdr false (c2 :: rest')).isEmpty, fuHdr hdr false false ++ c⟩ hdr false false c rfl hF
+      simp only [hfrag, hnext, bne_self_eq_false, Bool.false_eq_true, if_false] at hn
+      have hd := h264Decode_of_more d _ _ hu hn
+      have hcl : containsSeq [0, 0, 1] ((acc ++ c) ++ (c2 :: rest').flatten) = false := by
+        simpa [List.append_assoc] using hclean
+      have := ih (by simp) (sq + 1) (acc ++ c)
+        { d with frag := some (acc ++ c), next := (sq % two16 + 1) % two16 }
+        rfl (by simp only [two16]; omega) hu hframe hcl
+      unfold BatchDec at this ⊢
+      obtain ⟨d', h1, h2⟩ := this
+      refine ⟨d', ?_, ?_⟩
+      · rw [h264DecodeAll_cons _ _ _ hl, hd]
+        simp only
+        rw [h1]
+        simp [List.append_assoc]
+      · intro hlast
+        have := h2 hlast
+        simpa [List.append_assoc] using this
+
+/-- FU-A: a whole fragmented NAL unit `hdr :: body` -/
+theorem fu_start (ssrc : Nat) (hdr : UInt8) (hF : hdr &&& 0x80 = 0) (last : Bool) (cs : List Bytes)
+    (hne : cs ≠ []) (sq : Nat) (d : H264Dec) (fb : List NALU) (hr : Ready d fb)
+    (hclean : containsSeq [0, 0, 1] (hdr :: cs.flatten) = false) :
+    BatchDec d fb [hdr :: cs.flatten] (numberM ssrc sq last (fuFrags hdr true cs)) last := by
+  cases cs with
+  | nil => exact absurd rfl hne
+  | cons c rest =>
+    cases rest with
+    | nil =>
+      simp only [fuFrags, numberM, List.flatten_cons, List.flatten_nil, List.append_nil] at hclean ⊢
+      have hn := fu_nalus d ⟨ssrc, sq % two16, 0, last && ([] : List Bytes).isEmpty, fuHdr hdr true true ++ c⟩
+        hdr true true c rfl hF
+      simp only [if_true, afterFU_clean d _ hclean] at hn
+      exact batchDec_of_nalus d _ fb _ _ last hr.unm (by simp) hn ⟨rfl, hr.unm, hr.frame⟩
+    | cons c2 rest' =>
+      have hf : fuFrags hdr true (c :: c2 :: rest') =
+          (fuHdr hdr true false ++ c) :: fuFrags hdr false (c2 :: rest') := rfl
+      rw [hf]
+      simp only [numberM]
+      have hl := numberM_ne ssrc (sq + 1) last _ (fuFrags_ne hdr false (c2 :: rest') (by simp))
+      have hn := fu_nalus d ⟨ssrc, sq % two16, 0,
+        last && (fuFrags hdr false (c2 :: rest')).isEmpty, fuHdr hdr true false ++ c⟩ hdr true false c rfl hF
+      simp only [if_true, Bool.false_eq_true, if_false] at hn
+      have hd := h264Decode_of_more d _ _ hr.unm hn
+      have hcl : containsSeq [0, 0, 1] ((hdr :: c) ++ (c2 :: rest').flatten) = false := by
+        simpa using hclean
+      have := fu_cont ssrc hdr hF last (c2 :: rest') (by simp) (sq + 1) (hdr :: c)
+        { d with frag := some (hdr :: c), next := (sq % two16 + 1) % two16 } fb
+        rfl (by simp only [two16]; omega) hr.unm hr.frame hcl
+      unfold BatchDec at this ⊢
+      obtain ⟨d', h1, h2⟩ := this
+      refine ⟨d', ?_, ?_⟩
+      · rw [h264DecodeAll_cons _ _ _ hl, hd]
+        simp only
+        rw [h1]
+        simp
+      · intro hlast
+        have := h2 hlast
+        simpa using this
+
+/-- one batch of the packetiser, decoded -/
+theorem batch_decode (max : Nat) (hmax : 3 ≤ max) (ssrc sq : Nat) (last : Bool) (b : List NALU)
+    (hb : b ≠ []) (hc : ∀ n ∈ b, cleanNALU n = true) (pls : List Bytes)
+    (hp : batchPayloads max b = some pls) (d : H264Dec) (fb : List NALU) (hr : Ready d fb) :
+    pls ≠ [] ∧ BatchDec d fb b (numberM ssrc sq last pls) last := by
+  unfold batchPayloads at hp
+  split at hp
+  · rename_i n
+    have hcn := hc n List.mem_cons_self
+    split at hp
+    · cases hp
+      exact ⟨by simp, batch_single ssrc sq last n hcn d fb hr⟩
+    · rename_i hge
+      split at hp
+      · omega
+      · cases hp
+        obtain ⟨hne, hF, hcl, _⟩ := clean_facts n hcn
+        cases n with
+        | nil => exact absurd rfl hne
+        | cons hdr body =>
+          simp only [List.headD_cons, List.tail_cons, fuA] at hF ⊢
+          have hbody : body ≠ [] := by
+            intro e; rw [e] at hge; simp at hge; omega
+          have hk : 0 < max - 2 := by omega
+          have hcs := chunks_ne_nil (max - 2) hk body hbody
+          have hfl := chunks_flatten (max - 2) hk body
+          have := fu_start ssrc hdr hF last (chunks (max - 2) body) hcs sq d fb hr (by rw [hfl]; exact hcl)
+          rw [hfl] at this
+          exact ⟨fuFrags_ne _ _ _ hcs, this⟩
+  · cases hp
+    exact ⟨by simp, batch_stap ssrc sq last b hb hc d fb hr⟩
+
+theorem allSome_cons {α : Type} (x : Option (List α)) (l : List (Option (List α))) (P : List α)
+    (h : allSome (x :: l) = some P) : ∃ y P', x = some y ∧ allSome l = some P' ∧ P = y ++ P' := by
+  cases x with
+  | none => simp [allSome] at h
+  | some y =>
+    simp only [allSome, Option.map_eq_some_iff] at h
+    obtain ⟨P', h1, h2⟩ := h
+    exact ⟨y, P', rfl, h1, h2.symm⟩
+
+/-- all batches of a unit, decoded: the last packet completes `fb ++ all NAL units` -/
+theorem batches_decode (max : Nat) (hmax : 3 ≤ max) (ssrc : Nat) (bs : List (List NALU)) (hbs : bs ≠ [])
+    (hgood : ∀ b ∈ bs, b ≠ [] ∧ ∀ n ∈ b, cleanNALU n = true) (P : List Bytes)
+    (hP : allSome (bs.map (batchPayloads max)) = some P) (sq : Nat) (d : H264Dec) (fb : List NALU)
+    (hr : Ready d fb) :
+    P ≠ [] ∧ (h264DecodeAll d (numberM ssrc sq true P)).2 = .out (fb ++ bs.flatten) := by
+  induction bs generalizing P sq d fb with
+  | nil => exact absurd rfl hbs
+  | cons b rest ih =>
+    simp only [List.map_cons] at hP
+    obtain ⟨pls, P', hb, hrest, rfl⟩ := allSome_cons _ _ _ hP
+    have hg := hgood b List.mem_cons_self
+    cases rest with
+    | nil =>
+      simp only [List.map_nil, allSome, Option.some.injEq] at hrest
+      subst hrest
+      obtain ⟨hne, d', h1, _⟩ := batch_decode max hmax ssrc sq true b hg.1 hg.2 pls hb d fb hr
+      simp only [List.append_nil]
+      refine ⟨hne, ?_⟩
+      rw [h1]; simp
+    | cons b2 rest' =>
+      obtain ⟨hne, d', h1, h2⟩ := batch_decode max hmax ssrc sq false b hg.1 hg.2 pls hb d fb hr
+      have hih := ih (by simp) (fun x hx => hgood x (List.mem_cons_of_mem _ hx)) P' hrest
+        (sq + pls.length) d' (fb ++ b) (h2 rfl)
+      refine ⟨by simp [hne], ?_⟩
+      rw [numberM_append ssrc sq pls P' hih.1, h264DecodeAll_append d d' _ _ (by simpa using h1), hih.2]
+      simp [List.append_assoc]
+
+theorem h264Decode_stamp (d : H264Dec) (off : Nat) (pts : Int) (p : Pkt) :
+    h264Decode d (stamp off pts p) = h264Decode d p := rfl
+
+theorem h264DecodeAll_stamp (d : H264Dec) (off : Nat) (pts : Int) (l : List Pkt) :
+    h264DecodeAll d (l.map (stamp off pts)) = h264DecodeAll d l := by
+  induction l generalizing d with
+  | nil => rfl
+  | cons p rest ih =>
+    cases rest with
+    | nil => rfl
+    | cons q rest' =>
+      simp only [List.map_cons, h264DecodeAll, h264Decode_stamp]
+      split <;> simp_all
+
+/-- **lossless (b2)**: for every non-empty access unit of clean NAL units (not empty, forbidden bit clear,
+type outside 24–29, no start code inside, < 64 KiB) and every `max ≥ 3`, the packetiser does not panic and
+feeding the delivered packets of the unit (numbered from any sequence number, stamped with any offset) to a
+fresh `rtph264.Decoder` yields exactly the access unit. -/
+theorem h264_roundtrip (max : Nat) (hmax : 3 ≤ max) (au : List NALU) (hau : au ≠ [])
+    (hc : ∀ n ∈ au, cleanNALU n = true) (ssrc seq off : Nat) (pts : Int) :
+    ∃ raws, h264Pack max au = some raws ∧ raws ≠ [] ∧
+      (h264DecodeAll {} ((number ssrc seq raws).map (stamp off pts))).2 = .out au := by
+  have hs := h264_no_panic max hmax au
+  cases hpk : h264Pack max au with
+  | none => rw [hpk] at hs; cases hs
+  | some raws =>
+    refine ⟨raws, rfl, ?_⟩
+    unfold h264Pack at hpk
+    simp only [Option.map_eq_some_iff] at hpk
+    obtain ⟨P, hP, rfl⟩ := hpk
+    have hfl := splitBatches_flatten max au []
+    have hgood : ∀ b ∈ splitBatches max [] au, b ≠ [] ∧ ∀ n ∈ b, cleanNALU n = true := by
+      intro b hb
+      refine ⟨splitBatches_ne max au [] (Or.inr hau) b hb, fun n hn => hc n ?_⟩
+      have : n ∈ (splitBatches max [] au).flatten := List.mem_flatten.mpr ⟨b, hb, hn⟩
+      rw [hfl] at this
+      simpa using this
+    have hbs : splitBatches max [] au ≠ [] := by
+      intro e; rw [e] at hfl; simp at hfl; exact hau hfl
+    have := batches_decode max hmax ssrc (splitBatches max [] au) hbs hgood P hP seq {} []
+      ⟨rfl, rfl, rfl⟩
+    refine ⟨?_, ?_⟩
+    · intro e
+      have h1 := congrArg List.length e
+      rw [markLast_length] at h1
+      exact this.1 (List.length_eq_zero_iff.mp h1)
+    · rw [h264DecodeAll_stamp, number_markLast, this.2, hfl]
+      simp
+
+/-- the H264 packetiser satisfies the contract used in (a) -/
+theorem h264_packOK (max : Nat) (hmax : 3 ≤ max) :
+    PackOK max (fun au => (h264Pack max au).getD [])
+      (fun raws => match (h264DecodeAll {} (number 0 0 raws)).2 with | .out au => some au | _ => none)
+      (fun au => au ≠ [] ∧ ∀ n ∈ au, cleanNALU n = true) := by
+  constructor
+  · intro au _ r hr
+    cases h : h264Pack max au with
+    | none => rw [h] at hr; simp at hr
+    | some raws => rw [h] at hr; exact h264_size max hmax au raws h r hr
+  · intro au hv
+    obtain ⟨raws, h1, h2, _⟩ := h264_roundtrip max hmax au hv.1 hv.2 0 0 0 0
+    rw [h1]; exact h2
+  · intro au hv
+    obtain ⟨raws, h1, _, h3⟩ := h264_roundtrip max hmax au hv.1 hv.2 0 0 0 0
+    rw [h264DecodeAll_stamp] at h3
+    simp only [h1, Option.getD_some, h3]
+
+/-- the generic fragmenter satisfies the contract used in (a) -/
+theorem frag_packOK (max : Nat) (hmax : 0 < max) :
+    PackOK max (fragPack max)
+      (fun raws => match (fragDecodeAll {} (number 0 0 raws)).2 with | .out f => some f | _ => none)
+      (fun f => f ≠ []) := by
+  constructor
+  · intro f _ r hr; exact frag_size max f r hr
+  · intro f hf; exact frag_nonempty max hmax f hf
+  · intro f hf
+    have := frag_roundtrip max hmax f hf 0 0 0 0
+    rw [fragDecodeAll_stamp] at this
+    simp only [this]
+
+/-! #### non-vacuity / regression examples (kernel-decided) -/
+
+example : cleanNALU [0x65, 1, 2, 3] = true := by decide
+example : cleanNALU [0x65, 0, 0, 1] = false := by decide     -- start code inside
+example : cleanNALU [0x7C, 1] = false := by decide           -- type 28
+-- max = 5: [65 01 02 03 04 05 06] is fragmented into FU-A pieces of ≤ 3 bytes
+example : (h264Pack 5 [[0x65, 1, 2, 3, 4, 5, 6]]).map (·.map (·.payload)) =
+    some [[0x7C, 0x85, 1, 2, 3], [0x7C, 0x45, 4, 5, 6]] := by decide
+-- two small NAL units are aggregated (STAP-A), the third one does not fit any more
+example : (h264Pack 12 [[0x67, 1], [0x68, 2], [0x65, 3, 4, 5, 6, 7, 8]]).map (·.map (·.payload)) =
+    some [[24, 0, 2, 0x67, 1, 0, 2, 0x68, 2], [0x65, 3, 4, 5, 6, 7, 8]] := by decide
+example : (h264DecodeAll {} (number 7 65535 ((h264Pack 5 [[0x65, 1, 2, 3, 4, 5, 6], [0x41, 9]]).getD []))).2 =
+    .out [[0x65, 1, 2, 3, 4, 5, 6], [0x41, 9]] := by decide
+example : h264Pack 2 [[0x65, 1, 2]] = none := by decide       -- Go: integer division by zero
+example : (fragPack 3 [1, 2, 3, 4, 5, 6, 7]).map (·.payload) = [[1, 2, 3], [4, 5, 6], [7]] := by decide
+example : av1NoRoom 64 [List.replicate 35 0, List.replicate 26 0, List.replicate 17 0] = true := by decide
+example : av1NoRoom 64 [List.replicate 35 0, List.replicate 25 0, List.replicate 17 0] = false := by decide
 
 end MtxVerif.C23
